@@ -551,12 +551,25 @@ pre_type(struct emu *emu)
 		return -1;
 	}
 
+	/* The jumbo payload holds the size (4 bytes), the type id (4 bytes)
+	 * and the label, which must be terminated inside the payload */
+	size_t payload_size = emu->ev->payload_size;
+	if (payload_size < 4 + 4 + 1) {
+		err("task type payload too short");
+		return -1;
+	}
+
 	const uint8_t *data = &emu->ev->payload->jumbo.data[0];
 	uint32_t typeid;
 	memcpy(&typeid, data, 4); /* May be unaligned */
 	data += 4;
 
 	const char *label = (const char *) data;
+
+	if (memchr(label, '\0', payload_size - 4 - 4) == NULL) {
+		err("task type label without terminator");
+		return -1;
+	}
 
 	struct nosv_proc *proc = EXT(emu->proc, 'V');
 	struct task_info *info = &proc->task_info;
